@@ -11,21 +11,27 @@ import pyrx
 import vlib
 
 EXPLANATION = (
-    "Grid and Grid3Scales (compactify/decompactify/compactificationDerivatives, the nested "
-    "closures term1..5/totalMapping, _updateParameters with its assertions, and the "
-    "cache-managing methods __init__/_cacheCoordinates/change*FalloffScale with Python's "
-    "method resolution) are regenerated from grid.py and grid3Scales.py on every run. Coq "
-    "proves for ALL parameters: simple grid maps are mutually inverse bijections with the "
-    "reported Jacobians as derivatives, increasing, origin->0; three-scale map: each "
-    "arctanh term's argument stays above 1 / inside (-1,1) and its derivative is "
-    "c/(2 s (1-+x)), the reported Jacobian is the derivative of the five-term map on "
-    "(-1,1), chi=0 -> wallCenter, under the asserted parameter bounds slope(0)=L/r and "
-    "(smoothing<=1) Jacobian>0 hence increasing; any sequence of rescaling calls leaves "
-    "the object equal to a freshly constructed one except positionFalloff. The inherited "
-    "compactify and the stale positionFalloff are refuted by witnesses (known findings). "
-    "Model values are compared with the implementation by certified interval evaluation; "
-    "the property is evaluated directly on the implementation (finite differences, "
-    "monotonicity, op sequences vs fresh construction).")
+    "Grid and Grid3Scales are regenerated from grid.py / grid3Scales.py on every run (Python "
+    "method resolution; module level and unknown mutating methods fail closed): the point "
+    "functions, term1..5/totalMapping, _updateParameters (total version, its assertions as a "
+    "Prop, and a version WITH the assertions in program order returning (state, completed?)), "
+    "the cache-managing methods (total and with error exits) and the three getters. Facts "
+    "about the rest of the package are extracted too: nobody outside the two files writes to a "
+    "grid object, and the argument expressions with which EOM._updateGrid and "
+    "WallGoManager.buildGrid call the grid. Coq proves for ALL parameters: simple maps are "
+    "mutually inverse bijections with the reported Jacobians as derivatives, increasing; "
+    "three-scale map: per-term derivatives, Jacobian = derivative on (-1,1), chi=0 -> "
+    "wallCenter, slope(0)=L/r, Jacobian >= (1-sm)(L/r)/(1-chi^2) > 0 hence increasing and "
+    "unbounded towards both ends (onto R); _updateParameters completes iff its precondition "
+    "holds and a rejected call leaves the object untouched; after ANY history of accepted and "
+    "rejected rescaling calls the object equals a new grid (except positionFalloff) and its "
+    "getters are the maps of its node getter; the callers pass admissible arguments. Known "
+    "findings: inherited compactify, stale positionFalloff. Model vs code by certified "
+    "interval evaluation (also getter outputs of production-size grids at their own nodes); "
+    "the property is evaluated on the implementation: maps/Jacobians/monotonicity, nodes of "
+    "both spacings, getters vs maps, grids made by executing buildGrid/_updateGrid, and "
+    "histories on one object (scale changes, drifts, repeats, rejected calls, EOM updates, "
+    "re-init, copies; float/int/numpy-scalar arguments, constructor defaults).")
 
 ARR = ["chiValues", "rzValues", "rpValues", "xiValues", "pzValues", "ppValues",
        "dxidchi", "dpzdrz", "dppdrp"]
@@ -335,18 +341,36 @@ def check_maps(ctx, once, g, case, label, three):
     # the comparison stays inside |chi| <= 0.99 with steps 2% of the distance to the end and of
     # the width a of the smoothed steps at chi = +-r)
     inner = chi[np.abs(chi) <= 0.99]
-    amin = min(float(g.aIn), float(g.aOut), 1.0) if three else 1.0   # width of the smoothed steps
-    h = 2e-2 * np.minimum(1 - np.abs(inner), amin)
+    # local length scale of the map: distance to the ends, and sqrt(a^2 + (chi -+ r)^2) for
+    # the two smoothed steps (t / sqrt(a^2 + t^2) varies on that scale at distance t)
+    scale_x = 1 - np.abs(inner)
+    if three:
+        rr_ = float(g.ratioPointsWall)
+        scale_x = np.minimum(scale_x, np.sqrt(float(g.aIn) ** 2 + (inner + rr_) ** 2))
+        scale_x = np.minimum(scale_x, np.sqrt(float(g.aOut) ** 2 + (inner - rr_) ** 2))
+    h = 2e-2 * scale_x
     fd = fd5(zf, inner, h)
+    fd2 = fd5(zf, inner, 2 * h)
     Ji = g.compactificationDerivatives(inner, np.zeros_like(inner), np.zeros_like(inner))[0]
-    rel = np.abs(fd - Ji) / np.abs(Ji)
-    k = int(np.argmax(rel))
+    # The binary64 evaluation of the map itself is noisy where a is small (its arctanh
+    # arguments come within ~a^2 of +-1: noise ~ eps * tails / a^2, divided by h in the
+    # quotient).  The noise is MEASURED: the two step sizes agree to the truncation error
+    # (~1e-6 relative) wherever the quotient is reliable, so their difference is added to the
+    # allowance; a Jacobian that is not the derivative disagrees with both.
+    allow = 1e-4 * np.abs(Ji) + 4 * np.abs(fd - fd2)
+    excess = np.abs(fd - Ji) - allow
+    k = int(np.argmax(excess))
     ctx.count("direct_fd_" + label)
-    if rel[k] > 1e-4:
-        once(ctx, "%s: d(xi)/d(chi) by finite differences = %r but reported Jacobian "
-                       "= %r at chi=%r" % (label, fd[k], Ji[k], inner[k]),
-                       dict(kind="maps", three=three, case=case, chi=float(inner[k]),
-                            fd=float(fd[k]), jac=float(Ji[k])), px + "jacobian-mismatch")
+    reliable = np.abs(fd - fd2) <= 1e-4 * np.abs(Ji)
+    if reliable.mean() < 0.5:
+        ctx.log("%s: finite differences reliable at only %d%% of the points for %s" % (
+            label, int(100 * reliable.mean()), case))
+    if excess[k] > 0:
+        once(ctx, "%s: d(xi)/d(chi) by finite differences = %r (step %.3g; %r with twice "
+                  "the step) but reported Jacobian = %r at chi=%r"
+             % (label, fd[k], h[k], fd2[k], Ji[k], inner[k]),
+             dict(kind="maps", three=three, case=case, chi=float(inner[k]),
+                  fd=float(fd[k]), jac=float(Ji[k])), px + "jacobian-mismatch")
     # centre and slope at the centre
     zc = float(g.decompactify(np.array(0.0), np.array(0.0), np.array(0.0))[0])
     want = float(g.wallCenter) if three else 0.0
@@ -994,7 +1018,7 @@ def certified_stage(ctx, once, rng):
             cc, xs, js = gb.getCompactCoordinates(), gb.getCoordinates(), \
                 gb.getCompactificationDerivatives()
             for k, nn in ((0, M - 1), (1, N - 1), (2, N - 1)):
-                for i in sorted(set([0, nn // 2, nn - 1])):
+                for i in sorted(set([0, nn - 1] if k else [0, nn // 3, nn - 1])):
                     x = Fraction(float(cc[k][i]))
                     rows.append(("dec%d" % (k + 1), x, float(xs[k][i])))
                     rows.append(("jac%d" % (k + 1), x, float(js[k][i])))
@@ -1012,16 +1036,15 @@ def certified_stage(ctx, once, rng):
         rows = finite_rows(ctx, once, dict(three=False, L=str(L), T=str(T)), rows)
         files.append((dict(three=False, L=str(L), T=str(T)), rows,
                       ctx.write("Cases/Eval1_%d.v" % m, eval_file_g1(L, T, rows))))
-    procs = []
-    done = []
-    for case, rows, path in files:
-        procs.append((case, rows, path, subprocess.Popen(
-            ["timeout", "900", "coqc"] + ctx.coq_args() + [path], cwd=ctx.bdir,
-            stdout=subprocess.PIPE, stderr=subprocess.PIPE, text=True)))
-        if len(procs) >= 6:       # at most six coqc at a time
-            done += [(c, r, p, pr, pr.communicate()) for c, r, p, pr in procs]
-            procs = []
-    done += [(c, r, p, pr, pr.communicate()) for c, r, p, pr in procs]
+    import concurrent.futures
+
+    def compile_one(item):
+        case, rows, path = item
+        pr = subprocess.run(["timeout", "900", "coqc"] + ctx.coq_args() + [path], cwd=ctx.bdir,
+                            capture_output=True, text=True)
+        return case, rows, path, pr, (pr.stdout, pr.stderr)
+    with concurrent.futures.ThreadPoolExecutor(max_workers=6) as ex:   # at most six coqc
+        done = list(ex.map(compile_one, files))
     for case, rows, path, pr, (out, err) in done:
         for _ in rows:
             ctx.count("certified_eval", None)
@@ -1066,9 +1089,9 @@ def run(ctx):
     try:
         srcs = {os.path.basename(f): open(f).read()
                 for f in sorted(glob.glob(vlib.src_path("*.py")))}
-        ftext, finfo = gen_grid.generate_facts(srcs)
-        for w in finfo["foreign_grid_writes"]:
+        for w in gen_grid.foreign_grid_writes(srcs):
             ctx.log("a grid object is written outside grid.py/grid3Scales.py: %s:%d %s" % w)
+        ftext, finfo = gen_grid.generate_facts(srcs)
     except (pyrx.TranslateError, KeyError, SyntaxError) as e:
         ctx.log("fact extraction failed:", e)
         ctx.broken.append("translator(facts about the callers of the grid): %s" % e)
@@ -1081,6 +1104,10 @@ def run(ctx):
                    "src/WallGo/*.py (writes to grid objects)"],
             sha=[vlib.sha(src1), vlib.sha(src3)], info=info, facts=finfo))
     proved = gen_ok and facts_ok and ctx.prove(extra=["GridGen.v"], timeout=600)
+    if gen_ok and not facts_ok:
+        # the theorems are not checked (reported above); the model of the two grid classes is
+        # still needed for the model-vs-code comparison
+        ctx.coqc(os.path.join(ctx.bdir, "GridGen.v"))
     ctx.trusted += ["tools/pyrx.py + tools/gen_grid.py (AST translator, fail-closed)",
                     "Lib/GridMapsCache.v: meaning of attribute stores and of calling a "
                     "separable point function on the three compact arrays (component-wise "
@@ -1114,7 +1141,8 @@ def run(ctx):
             check_nodes(ctx, once, g, case, "three-scale", True)
         except Exception as ex:   # noqa: BLE001
             once(ctx, "Grid3Scales raised %r" % ex, dict(kind="maps", three=True,
-                                                            case=case), "g3-raises")
+                                                            case=case),
+                 "g3-raises:" + type(ex).__name__)
             continue
         ctx.count("g3_grid", case, bucket="%s|tails %s|L~1e%d" % (
             spacing, "equal" if p[0] == p[1] else "unequal",
@@ -1136,7 +1164,7 @@ def run(ctx):
             check_nodes(ctx, once, g, case, "simple", False)
         except Exception as ex:   # noqa: BLE001
             once(ctx, "Grid raised %r" % ex, dict(kind="maps", three=False, case=case),
-                           "simple-raises")
+                           "simple-raises:" + type(ex).__name__)
             continue
         ctx.count("simple_grid", case, bucket=spacing)
         if rt is not None and rt[0] > 1e-9:
@@ -1167,12 +1195,17 @@ def run(ctx):
 
     ctx.cov["rule"] = (
         "three-scale grids: thickness dyadic m*2^e over 0.008..250 (bucketed by decade), "
-        "ratio k/16, smoothing in {1/32..1}, tails = bound*(1+d) or the EOM._updateGrid "
-        "value L(0.5+1.05 sm)/r, equal and unequal, centre 0/+-; both spacings, M up to 40; "
-        "each grid probed at ~220 compact points incl. its own nodes and points 1e-8 from "
-        "the ends; op sequences of 5-8 calls mixing scale changes, centre-only changes, "
-        "exact repeats and momentum rescalings, compared attribute by attribute with a "
-        "fresh grid after every call; distinct = distinct parameter tuple / op list")
+        "ratio k/16 and 1/32,1/16,15/16,31/32, smoothing in {1/256..1, 0.1}, tails = "
+        "bound*(1+d) or whatever WallGoManager.buildGrid / EOM._updateGrid produce when "
+        "executed, equal and unequal, centre 0/+-; both spacings, M up to 50; each grid probed "
+        "at ~220 compact points incl. its own nodes and points 1e-8 from the ends; node "
+        "clauses on the arrays as stored; getters (both endpoints values, every direction) vs "
+        "maps; histories of 4-8 calls on one object mixing scale changes, centre-only drifts, "
+        "exact repeats, momentum rescalings, calls violating each assertion in turn (object "
+        "compared with its snapshot), EOM._updateGrid calls (pairs with flipped offsets), "
+        "re-running __init__, rescaling a copy.copy; argument types float / numpy scalar / "
+        "0-d array / int; constructor defaults; after every call: vs fresh grid, getters vs "
+        "maps, node clauses; distinct = distinct parameter tuple / history")
     ctx.assumptions += [
         "no hypotheses about external numerics: the property is closed-form",
         "smoothing <= 1 for positivity/monotonicity of the three-scale map (documented "
@@ -1233,7 +1266,9 @@ def replay(rep):
         print("chi=%r map=%r jacobian=%r finite-difference=%r" % (
             x, float(zf(xa)[0]),
             float(g.compactificationDerivatives(xa, 0 * xa, 0 * xa)[0][0]),
-            float(fd5(zf, xa, 2e-2 * min(1 - abs(x), float(getattr(g, "aIn", 1.0)),
-                                         float(getattr(g, "aOut", 1.0))))[0])
+            float(fd5(zf, xa, 2e-2 * min(
+                1 - abs(x),
+                math.hypot(float(getattr(g, "aIn", 1.0)), x + float(getattr(g, "ratioPointsWall", 9))),
+                math.hypot(float(getattr(g, "aOut", 1.0)), x - float(getattr(g, "ratioPointsWall", 9)))))[0])
             if abs(x) < 1 else None))
     return 0
